@@ -370,7 +370,33 @@ static RegisterOp r_cb2({"mzd_combine_even", "C13", 0, nullptr, exec_combine, tr
 static RegisterOp r_cb3({"mzd_combine_even_in_place", "C13", 0, nullptr, exec_combine, true});
 
 // ------------------------------------------------------------------ permutations
+// rows of more than 65536 words: index tables inside the column-permutation kernel must hold such word indices.  The
+// permutation is not spelled out but derived from a seed: identity except for `Pmoves` entries, half of which fetch a
+// column from beyond column 2^22.
+static std::vector<int> sparse_perm(const Case &c) {
+  int len = (int)c.i("len");
+  u64 s = c.u("Pgen");
+  std::vector<int> P(len);
+  for (int i = 0; i < len; i++) P[i] = i;
+  const int top = 1 << 22;
+  for (int j = 0; j < (int)c.i("Pmoves", 8); j++) {
+    int a = (int)(splitmix64(s) % (u64)len), b;
+    if ((splitmix64(s) & 1) && len > top + 1) b = top + (int)(splitmix64(s) % (u64)(len - top));
+    else b = (int)(splitmix64(s) % (u64)len);
+    if (a > b) std::swap(a, b);
+    P[a] = b;  // LAPACK form: a <= P[a] < len
+  }
+  return P;
+}
+
 static void gen_perm(const GenCtx &ctx, Case &c, int viewpct) {
+  if (ctx.scale >= 400 && g::coin(1, 5000)) {
+    c.sets("op", g::pick<std::string>({"mzd_apply_p_right", "mzd_apply_p_right_trans"}));
+    int n = (1 << 22) + g::rng(65, 70000);
+    c.set("m", g::rng(1, 3)).set("n", n).sets("M.pat", "dense").setu("M.seed", g::seed());
+    c.set("len", n).setu("Pgen", g::seed()).set("Pmoves", g::rng(4, 40)).set("undo", g::coin(1, 2));
+    return;
+  }
   std::string op = g::pick<std::string>({"mzd_apply_p_left", "mzd_apply_p_left_trans", "mzd_apply_p_right", "mzd_apply_p_right_trans",
                                          "mzd_apply_p_right", "mzd_apply_p_right_trans", "mzd_apply_p_right_even_capped",
                                          "mzd_apply_p_right_trans_even_capped", "mzd_apply_p_right_trans_tri"});
@@ -403,7 +429,8 @@ static Verdict exec_perm(const Case &c) {
   Ex x(c);
   std::string op = c.s("op");
   int m = (int)c.i("m"), n = (int)c.i("n");
-  std::vector<int> P = parse_intlist(c.s("P"));
+  std::vector<int> P = c.has("Pgen") ? sparse_perm(c) : parse_intlist(c.s("P"));
+  if (c.has("Pgen")) x.v.label("rows-wider-than-65536-words");
   Mat A = build_pat(c, "M", m, n);
   Opnd o;
   x.make(o, "M", A);
